@@ -6,7 +6,7 @@ import random
 from lib.tlc import MachineryError
 
 MODEL_DEVS = ["Dev_C06_SplitStaleSize", "Dev_C05_StackFallback", "Dev_C05_T1D", "Dev_C05_WhereOther", "Dev_C05_LtFloat8", "Dev_C05_CopyPlain"]
-TRACE_DEVS = MODEL_DEVS + ["Dev_C05_DivTensor", "Dev_C05_NegMin", "Dev_C07_IntMMK1"]
+TRACE_DEVS = MODEL_DEVS + ["Dev_C05_DivTensor", "Dev_C05_NegMin", "Dev_C07_IntMMK1", "Dev_C07_F16Float8Act"]
 
 
 def cfg(c, name, depth, devs, invs, view=True, extra=""):
